@@ -3,7 +3,7 @@ use rosu_map::section::general::GameMode;
 use crate::{
     any::difficulty::skills::StrainSkill,
     mania::{convert, object::ObjectParams},
-    model::{hit_object::HitObject, mode::ConvertError},
+    model::mode::ConvertError,
     Beatmap, Difficulty,
 };
 
@@ -47,14 +47,14 @@ use super::{
 pub struct ManiaGradualDifficulty {
     pub(crate) idx: usize,
     pub(crate) difficulty: Difficulty,
-    objects_is_circle: Box<[bool]>,
+    /// The combo and hold note count after each object.
+    note_states: Box<[NoteState]>,
     is_convert: bool,
     strain: Strain,
     diff_objects: Box<[ManiaDifficultyObject]>,
-    note_state: NoteState,
 }
 
-#[derive(Default)]
+#[derive(Copy, Clone, Default)]
 struct NoteState {
     curr_combo: u32,
     n_hold_notes: u32,
@@ -82,40 +82,37 @@ impl ManiaGradualDifficulty {
         let clock_rate = difficulty.get_clock_rate();
         let mut params = ObjectParams::new(&map);
 
+        // Combo and hold note count are tracked by `ObjectParams` the same
+        // way as for the regular calculation so we just keep the values
+        // after each object.
+        let mut note_states = Vec::with_capacity(map.hit_objects.len());
+
         let mania_objects = map
             .hit_objects
             .iter()
-            .map(|h| ManiaObject::new(h, total_columns, &mut params))
+            .map(|h| {
+                let hit_object = ManiaObject::new(h, total_columns, &mut params);
+
+                note_states.push(NoteState {
+                    curr_combo: params.max_combo(),
+                    n_hold_notes: params.n_hold_notes(),
+                });
+
+                hit_object
+            })
             .take(take);
 
         let diff_objects = DifficultyValues::create_difficulty_objects(clock_rate, mania_objects);
 
         let strain = Strain::new(total_columns as usize);
 
-        let mut note_state = NoteState::default();
-
-        let objects_is_circle: Box<[_]> =
-            map.hit_objects.iter().map(HitObject::is_circle).collect();
-
-        if let Some(h) = map.hit_objects.first() {
-            let hit_object = ManiaObject::new(h, total_columns, &mut params);
-
-            increment_combo_raw(
-                objects_is_circle[0],
-                hit_object.start_time,
-                hit_object.end_time,
-                &mut note_state,
-            );
-        }
-
         Ok(Self {
             idx: 0,
             difficulty,
-            objects_is_circle,
+            note_states: note_states.into_boxed_slice(),
             is_convert: map.is_convert,
             strain,
             diff_objects,
-            note_state,
         })
     }
 }
@@ -131,25 +128,18 @@ impl Iterator for ManiaGradualDifficulty {
         if self.idx > 0 {
             let curr = self.diff_objects.get(self.idx - 1)?;
             self.strain.process(curr, &self.diff_objects);
-
-            let is_circle = self.objects_is_circle[self.idx];
-            increment_combo(
-                is_circle,
-                curr,
-                &mut self.note_state,
-                self.difficulty.get_clock_rate(),
-            );
-        } else if self.objects_is_circle.is_empty() {
+        } else if self.note_states.is_empty() {
             return None;
         }
 
+        let note_state = self.note_states[self.idx];
         self.idx += 1;
 
         Some(ManiaDifficultyAttributes {
             stars: self.strain.cloned_difficulty_value() * DIFFICULTY_MULTIPLIER,
-            max_combo: self.note_state.curr_combo,
+            max_combo: note_state.curr_combo,
             n_objects: self.idx as u32,
-            n_hold_notes: self.note_state.n_hold_notes,
+            n_hold_notes: note_state.n_hold_notes,
             is_convert: self.is_convert,
         })
     }
@@ -161,11 +151,7 @@ impl Iterator for ManiaGradualDifficulty {
     }
 
     fn nth(&mut self, n: usize) -> Option<Self::Item> {
-        let skip_iter = self
-            .diff_objects
-            .iter()
-            .zip(self.objects_is_circle.iter().skip(1))
-            .skip(self.idx.saturating_sub(1));
+        let skip_iter = self.diff_objects.iter().skip(self.idx.saturating_sub(1));
 
         let len = self.len();
 
@@ -180,10 +166,7 @@ impl Iterator for ManiaGradualDifficulty {
             self.idx += 1;
         }
 
-        let clock_rate = self.difficulty.get_clock_rate();
-
-        for (curr, is_circle) in skip_iter.take(take) {
-            increment_combo(*is_circle, curr, &mut self.note_state, clock_rate);
+        for curr in skip_iter.take(take) {
             self.strain.process(curr, &self.diff_objects);
             self.idx += 1;
         }
@@ -198,34 +181,11 @@ impl Iterator for ManiaGradualDifficulty {
 
 impl ExactSizeIterator for ManiaGradualDifficulty {
     fn len(&self) -> usize {
-        if self.objects_is_circle.is_empty() {
+        if self.note_states.is_empty() {
             return 0;
         }
 
         self.diff_objects.len() + 1 - self.idx
-    }
-}
-
-fn increment_combo(
-    is_circle: bool,
-    diff_obj: &ManiaDifficultyObject,
-    state: &mut NoteState,
-    clock_rate: f64,
-) {
-    increment_combo_raw(
-        is_circle,
-        diff_obj.start_time * clock_rate,
-        diff_obj.end_time * clock_rate,
-        state,
-    );
-}
-
-fn increment_combo_raw(is_circle: bool, start_time: f64, end_time: f64, state: &mut NoteState) {
-    if is_circle {
-        state.curr_combo += 1;
-    } else {
-        state.curr_combo += 1 + ((end_time - start_time) / 100.0) as u32;
-        state.n_hold_notes += 1;
     }
 }
 
